@@ -502,13 +502,13 @@ func TestVerif_C23(t *testing.T) {
 
 		meta := rng.Intn(3) != 0
 		var md *c23MD
-		if meta && rng.Intn(5) != 0 {
-			class := ""
-			if i == 1 {
-				class = "max-count"
-			} else if i == 2 {
-				class = "max-len"
-			}
+		class := ""
+		if r.Batch < 2 && i == 1 {
+			class, meta = "max-count", true // wire limit: 65535 headers (batches 0 and 1 of every run)
+		} else if r.Batch < 2 && i == 2 {
+			class, meta = "max-len", true // wire limit: 65535-byte keys and values
+		}
+		if meta && (class != "" || rng.Intn(5) != 0) {
 			md = c23GenMD(rng, class)
 		}
 		usePool := rng.Intn(2) == 0
